@@ -43,6 +43,10 @@ pub fn judge_value(ctx: &Ctx, case: &Value) -> Result<(), Fail> {
         let c: props::frontends::PySeq = serde_json::from_value(c.clone()).map_err(bad)?;
         return props::frontends::replay_py(ctx, &c);
     }
+    if let Some(c) = case.get("py_mem") {
+        let c: props::frontends::PyMemCase = serde_json::from_value(c.clone()).map_err(bad)?;
+        return props::frontends::replay_py_mem(ctx, &c);
+    }
     if let Some(c) = case.get("cli_rss") {
         let c: props::frontends::RssCase = serde_json::from_value(c.clone()).map_err(bad)?;
         return props::frontends::replay_cli_rss(ctx, &c);
